@@ -19,6 +19,107 @@ def gen(chk, bias=''):
     return g
 
 
+def proc_cases(rng, n):
+    """small trees with PROCESS servlets (real OS processes, OS schedule): sampled only"""
+    out = []
+    for _ in range(n):
+        nreq = 6
+        reqs = list(range(1, nreq + 1))
+
+        def w(mark, **kw):
+            d = dict(k='w', mark=mark, bs=rng.choice([0, 0, 1, 3]), nw=rng.choice([1, 2]), pre=rng.random() < 0.5,
+                     proc=rng.random() < 0.8)
+            d.update(kw)
+            d['pf'] = sorted(r for r in reqs if d['pre'] and rng.random() < 0.2)
+            # no element-wise failure inside a batch here: the harness's device for it (call RETURNS an
+            # exception object in that position) is not a raised failure and does not survive pickling
+            d['cf'] = sorted(r for r in reqs if d['bs'] == 0 and rng.random() < 0.25)
+            d['bp'] = sorted(r for r in reqs if d['bs'] > 0 and rng.random() < 0.15)
+            return d
+        shape = rng.choice(['seq', 'ens', 'single', 'sw'])
+        if shape == 'seq':
+            tree = dict(k='s', ch=[w(1, proc=True), w(2)])
+        elif shape == 'ens':
+            tree = dict(k='e', ff=rng.random() < 0.5, ch=[w(1, proc=True), w(2)])
+        elif shape == 'sw':
+            tree = dict(k='x', ch=[w(1, proc=True), w(2)])
+        else:
+            tree = w(1, proc=True)
+        out.append(dict(tree=tree, callers=[reqs[:3], reqs[3:]], nreq=nreq, cap=8))
+    return out
+
+
+def proc_sample(chk, prop, n):
+    """E4: run n cases with real worker processes (own session, group killed), compare every outcome
+    with the harness reference and with `outs` of the Lean model; C04: the traceback of the failure
+    site must survive as text"""
+    import json
+    import os
+    import signal
+    import subprocess
+    import time
+    cases = proc_cases(chk.rng, n)
+    env = dict(os.environ, PYTHONPATH=f'{core.HARNESS}:{core.REPO / "src"}')
+    lines = []
+    done = []
+    durs = []
+    for k, case in enumerate(cases):
+        t0 = time.time()
+        p = subprocess.Popen(['/venv/bin/python', str(core.HARNESS / 'proc_servlet_run.py'), json.dumps(case)],
+                             stdout=subprocess.PIPE, stderr=subprocess.PIPE, text=True, env=env, start_new_session=True)
+        bound = max(40.0, 20 * (sorted(durs)[len(durs) // 2] if durs else 2.0))
+        try:
+            so, se = p.communicate(timeout=bound)
+        except subprocess.TimeoutExpired:
+            os.killpg(p.pid, signal.SIGKILL)
+            p.communicate()
+            chk.violations.append(dict(rule='proc-hang', detail=f'no answer within {bound}s with process servlets',
+                                       key=f'proc-hang:{case["tree"]["k"]}', case=case, events=None, size=core._case_size(case)))
+            continue
+        finally:
+            try:
+                os.killpg(p.pid, signal.SIGKILL)
+            except Exception:  # noqa
+                pass
+        durs.append(time.time() - t0)
+        m = [l for l in so.splitlines() if l.startswith('RESULT ')]
+        if not m:
+            raise core.InfraError(f'process sample produced no result: {se[-800:]}')
+        r = json.loads(m[-1][7:])
+        done.append((case, r))
+        lines.append(f'case p{k} ' + ' '.join(scen_servlet.tree_tokens(case['tree'])))
+        for req, code in sorted(r['out'].items(), key=lambda kv: int(kv[0])):
+            allowed = scen_servlet.py_outs(case['tree'], f'N{req}')
+            if code not in allowed and prop == 'C02':
+                chk.violations.append(dict(rule='proc-crosstalk', detail=f'process servlets: request {req} received {code}; allowed {sorted(allowed)}',
+                                           key=f'proc-crosstalk:{case["tree"]["k"]}', case=case, events=None, size=core._case_size(case)))
+            if code not in allowed and prop == 'C04' and code.startswith('E'):
+                chk.violations.append(dict(rule='proc-foreign-exception', detail=f'process servlets: request {req} received {code}; allowed {sorted(allowed)}',
+                                           key=f'proc-foreign-exception:{case["tree"]["k"]}', case=case, events=None, size=core._case_size(case)))
+            lines.append(f'out {req} {code}')
+        if prop == 'C04':
+            for req, verdict in r['tbs'].items():
+                if verdict:
+                    chk.violations.append(dict(rule='proc-traceback', detail=f'request {req}: {verdict}',
+                                               key=f'proc-traceback:{case["tree"]["k"]}', case=case, events=None, size=core._case_size(case)))
+        lines.append('end')
+    verdicts = {l.split(' ', 2)[1]: l for l in core.run_driver('servlet', lines) if l.split(' ', 1)[0] in ('ok', 'MISMATCH', 'REJECT')}
+    nok = 0
+    for k, (case, r) in enumerate(done):
+        kk = [i for i, c in enumerate(cases) if c is case][0]
+        v = verdicts.get(f'p{kk}')
+        if v and v.startswith('ok'):
+            nok += 1
+        else:
+            chk.corr_breaks.append(dict(model='servlet', case=case, verdict=v or 'no answer from the driver', events=None))
+    chk.cov['evaluations'] += len(done)
+    chk.cov['traces_validated_against_impl'] += nok
+    if 'E4-processes(sampled)' not in chk.cov['engines']:
+        chk.cov['engines'].append('E4-processes(sampled)')
+    chk.cov['distribution']['process_cases'] = len(done)
+    chk.cov['distribution']['process_exception_outcomes'] = sum(1 for _c, r in done for c in r['out'].values() if c.startswith('E'))
+
+
 def run(chk, prop=PROP, props=PROPS, bias=''):
     chk.audit(props)
     n = 900 if chk.tier == 'quick' else 30000
@@ -42,6 +143,7 @@ def run(chk, prop=PROP, props=PROPS, bias=''):
         'call events of every worker, ensemble and switch node are replayed through its operational Lean '
         'model; non-trivial = >= 2 requests, >= 2 callers and >= 1 context switch; distinct = distinct (case, '
         'event trace)')
+    proc_sample(chk, prop, 3 if chk.tier == 'quick' else 25)
     chk.trusted += TRUSTED
     chk.assumptions += ASSUMPTIONS
 
@@ -56,7 +158,8 @@ TRUSTED = [
     'contract); the lifting of the node contracts to whole trees is by the composition lemmas stated in notes/C02.md',
     'modelled not verified: queue.SimpleQueue is FIFO and loses / duplicates nothing; dict get/pop/setitem are atomic; '
     'RemoteException wrapping preserves class and args (C15); a batched `call` is element-wise or fails as a whole',
-    'process servlets are not schedulable by E1: covered by the theorems (same code path) and the repo\'s own tests only',
+    'process servlets are not schedulable by E1: the theorems cover them (same code path); a small sample of real-process runs '
+    '(OS schedule, not controlled) is compared with `outs` on every run',
     'the ledger layer (uid minting, capacity, gather thread, timeouts) is exercised by the whole-server runs here but proved in '
     'the Ledger model (C06/C07 builder)',
 ]
